@@ -15,8 +15,8 @@
 (* circuits, T unitary and consistent with NetSymp.                        *)
 (***************************************************************************)
 EXTENDS Ops, TLC, Json, FiniteSetsExt, SequencesExt
-CONSTANTS RegSize, SubsetSize, Len0, TargetId, EMIT
-VARIABLES used, circ
+CONSTANTS RegSize, SubsetSize, Len0, TargetId, SubsetFilter, EMIT
+VARIABLES used, circ, cache
 a345  == <<Q(3, 5), Q(4, 5)>>
 a435  == <<Q(4, 5), Q(3, 5)>>
 am345 == <<Q(-3, 5), Q(4, 5)>>
@@ -51,11 +51,14 @@ UsedSeq == SetToSortSeq(used, <)
 Slot(i) == UsedSeq[((i - 1) % Len(UsedSeq)) + 1]
 Pool    == IF TargetId = "passive" THEN PoolPassive(Slot(1), Slot(2), Slot(3)) ELSE PoolGU(Slot(1), Slot(2), Slot(3))
 Valid(op) == \A i, j \in DOMAIN op.modes : i # j => op.modes[i] # op.modes[j]
-Init == /\ used \in {S \in SUBSET (0 .. RegSize - 1) : Cardinality(S) = SubsetSize}
+\* "all": every subset of the given size; "few": a fixed selection with non-contiguous sets, sets whose hash order differs from
+\* numeric order and indices >= 8 (the on-every-change tier)
+FewSubsets == IF SubsetSize = 2 THEN {{0, 1}, {0, 8}, {1, 8}, {8, 9}, {2, 5}, {3, 9}} ELSE {{0, 1, 2}, {1, 8, 9}, {0, 3, 8}, {2, 5, 9}}
+Init == /\ used \in {S \in (IF SubsetFilter = "few" THEN FewSubsets ELSE SUBSET (0 .. RegSize - 1)) :
+                          Cardinality(S) = SubsetSize /\ S \subseteq 0 .. RegSize - 1}
         /\ \E f \in [1 .. Len0 -> 1 .. Len(Pool)] :
               circ = [i \in 1 .. Len0 |-> Pool[f[i]]] /\ \A i \in 1 .. Len0 : Valid(Pool[f[i]])
-Next == UNCHANGED <<used, circ>>
-Spec == Init /\ [][Next]_<<used, circ>>
+Next == UNCHANGED <<used, circ, cache>>
 
 \* ---- net symplectic action -------------------------------------------------------------------------------
 Touched   == UNION {SeqToSet(circ[i].modes) : i \in DOMAIN circ}
@@ -80,12 +83,13 @@ NetFrom(acc, i) ==
                                                              ELSE IF j = p + k THEN RAdd(acc.d[j], dd[2]) ELSE acc.d[j]]], i + 1)
        ELSE IF op.name \in ChanNames THEN NetFrom(acc, i + 1)
        ELSE NetFrom(LeftMul(acc.S, acc.d, op.modes, SympOf(op)), i + 1)
-Net == NetFrom([S |-> IdM(2 * k), d |-> ZeroV(2 * k)], 1)
+NetRaw == NetFrom([S |-> IdM(2 * k), d |-> ZeroV(2 * k)], 1)
+Net == cache.net
 AllUnitary == \A i \in DOMAIN circ : circ[i].name \notin ChanNames
 NetIsSymplectic == AllUnitary => IsSymplectic(Net.S)
 \* the net action reproduces the state semantics: vacuum -> (d, S S^T)
 NetMatchesState == AllUnitary =>
-   LET st == ApplySeq(Vacuum(TSeq), circ, K) IN st.mu = Net.d /\ st.V = MatMul(Net.S, Transpose(Net.S))
+   LET st == cache.st IN st.mu = Net.d /\ st.V = MatMul(Net.S, Transpose(Net.S))
 
 \* ---- net transfer matrix of a passive circuit ---------------------------------------------------------------
 CIdM(n)  == [i \in 1 .. n |-> [j \in 1 .. n |-> IF i = j THEN COne ELSE CZero]]
@@ -102,7 +106,11 @@ TransferFrom(Tm, i) ==
            loc(r) == IF \E a \in 1 .. t : idx[a] = r THEN CHOOSE a \in 1 .. t : idx[a] = r ELSE 0
        IN  TransferFrom([r \in 1 .. k |-> IF loc(r) = 0 THEN Tm[r]
                            ELSE [c \in 1 .. k |-> CDot2(U[loc(r)], [b \in 1 .. t |-> Tm[idx[b]][c]])]], i + 1)
-NetTransfer == TransferFrom(CIdM(k), 1)
+NetTransferRaw == TransferFrom(CIdM(k), 1)
+NetTransfer == cache.T
+\* the derived objects are computed once per circuit and carried in a variable
+Init0 == Init /\ cache = [net |-> NetRaw, T |-> IF TargetId = "passive" THEN NetTransferRaw ELSE << >>,
+                           st |-> ApplySeq(Vacuum(TSeq), circ, K)]
 TransferUnitaryIfLossless ==
    (TargetId = "passive" /\ AllUnitary) =>
       LET Tm == NetTransfer IN
@@ -111,6 +119,6 @@ TransferMatchesSymp ==
    (TargetId = "passive" /\ AllUnitary) =>
       Net.S = FromUC(NetTransfer)
 EmitInv == EMIT => PrintT(ToJson([circ |-> circ, used |-> TSeq, S |-> Net.S, d |-> Net.d,
-                                   T |-> IF TargetId = "passive" THEN NetTransfer ELSE << >>,
-                                   st |-> ApplySeq(Vacuum(TSeq), circ, K)]))
+                                   T |-> cache.T, st |-> cache.st]))
+Spec == Init0 /\ [][Next]_<<used, circ, cache>>
 =============================================================================
